@@ -35,6 +35,9 @@ pub struct Basis;
 
 impl Sub for Basis {
     type Case = BasisCase;
+    fn restrictable(&self) -> bool {
+        true
+    }
     fn name(&self) -> &'static str {
         "fft_basis_vectors"
     }
@@ -113,6 +116,9 @@ fn operand(n: usize, limit: i64) -> BoxedStrategy<Vec<i64>> {
 
 impl Sub for Product {
     type Case = ProductCase;
+    fn restrictable(&self) -> bool {
+        true
+    }
     fn name(&self) -> &'static str {
         "fft_product"
     }
@@ -208,6 +214,9 @@ pub struct Sequence;
 
 impl Sub for Sequence {
     type Case = SeqCase;
+    fn restrictable(&self) -> bool {
+        true
+    }
     fn name(&self) -> &'static str {
         "fft_same_operands_sequence"
     }
